@@ -17,7 +17,7 @@ def att(name, value):
     return ' %s="%s"' % (name, _esc(value, {'"': '&quot;'}))
 
 
-def gen_doc(rng, specials=False, imports=True):
+def gen_doc(rng, specials=False, imports=True, resets=True):
     uid = [0]
     def ident(p=0.35):
         if rng.random() < p:
@@ -119,7 +119,7 @@ def gen_doc(rng, specials=False, imports=True):
             if iface: a += att('interface', iface)
             if v['id']: a += att('id', v['id'])
             body.append('    <variable%s/>' % a)
-        if len(cvars[c]) >= 2 and rng.random() < 0.3:
+        if resets and len(cvars[c]) >= 2 and rng.random() < 0.3:
             v, w = cvars[c][0]['name'], cvars[c][1]['name']
             order[0] += 1
             oa = att('order', str(order[0])) if (rng.random() < 0.97 or not specials) else ''
